@@ -16,4 +16,4 @@ for p in $props; do
   mkdir -p $d/cov/$p
   (cd $d/verif && GOCOVERDIR=$d/cov/$p VERIF_ROOT=$d/verif VERIF_REPO=/repo VERIF_LEAN_REPORT=.work/lean_$p.json VERIF_TIER=quick .work/bin/tie-cover $p quick 2>/dev/null | tail -1) &
 done; wait
-(cd $d/verif/tie && go tool covdata textfmt -i=$(ls -d $d/cov/* | tr '\n' ',' | sed 's/,$//') -o $d/all.txt && grep -v "^verif/tie" $d/all.txt > $d/repo.txt && go tool cover -func=$d/repo.txt | grep -v "100.0%" | awk '{print $3, $1, $2}' | sort -n)
+cp_out=${P2COV_OUT:-}; (cd $d/verif/tie && go tool covdata textfmt -i=$(ls -d $d/cov/* | tr '\n' ',' | sed 's/,$//') -o $d/all.txt && grep -v "^verif/tie" $d/all.txt > $d/repo.txt && go tool cover -func=$d/repo.txt | grep -v "100.0%" | awk '{print $3, $1, $2}' | sort -n); [ -n "$cp_out" ] && cp $d/repo.txt $cp_out
